@@ -51,7 +51,9 @@ func (i *interpreter) gosymCall(fr *frame, fn *ssa.Function, args []value) (valu
 		panic(unsupported("bodiless function " + name))
 	}
 	if nat := overrides[name]; nat != nil {
-		return nat(fr, args), true
+		if r := nat(fr, args); r != (notHandled{}) {
+			return r, true
+		}
 	}
 	if i.funcCalls == nil {
 		i.funcCalls = map[string]int{}
@@ -60,8 +62,39 @@ func (i *interpreter) gosymCall(fr *frame, fn *ssa.Function, args []value) (valu
 	return nil, false
 }
 
-// overrides replace interpreted functions (none by default; used for summaries).
+// overrides replace interpreted functions when they apply (they return notHandled{} to
+// fall through to interpretation).
 var overrides = map[string]natfn{}
+
+type notHandled struct{}
+
+func init() {
+	// pkg/types.SerializableDate/Time parse bytes with package time: when the argument is a
+	// symbolic document the contract stub for library text formats is used instead (null is
+	// a no-op, a string satisfying the format predicate decodes, anything else fails).
+	for _, tn := range []string{"SerializableDate", "SerializableTime"} {
+		tn := tn
+		overrides["(*"+RepoModule+"/pkg/types."+tn+").UnmarshalJSON"] = func(fr *frame, a []value) value {
+			ref, ok := a[1].(docRef)
+			if !ok {
+				return notHandled{}
+			}
+			x := fr.i.x
+			n := ref.n
+			if x.decide(n.kindIs(kNull)) {
+				return iface{}
+			}
+			if !x.decide(n.kindIs(kString)) {
+				return fr.i.mkError("cannot parse non-string value as a date")
+			}
+			pred := internPat("format:types." + tn)
+			if !x.decide(mkBool("(" + pred + " " + n.strv().t + ")")) {
+				return fr.i.mkError("unable to parse date from JSON")
+			}
+			return iface{}
+		}
+	}
+}
 
 // symIfaceEq handles ==/!= on interface values whose payload is symbolic.
 func symIfaceEq(op token.Token, x, y value) (value, bool) {
